@@ -23,13 +23,17 @@ G = {
 # the (!stop ~ ANY)* idiom in a non-atomic rule under trivia (g3) and without trivia, evaluated twice per parse (g4), a tagged reference
 G.update({
     "g3": 'WHITESPACE = _{ " " }\nSKIP = { "s" }\nr = { (!"b" ~ ANY)* ~ "b" }\ns = { SKIP ~ #t = u ~ "b" }\nt = _{ "a" | "ab" }\nu = { (!("b" | "ab") ~ ANY)* }\n',
+    # g5: implicit whitespace that is a choice of literals (the optimizer fuses it into one repeated pattern) next to an ordinary choice
+    # with the same alternatives, and the same choice named explicitly in an atomic rule
+    "g5": 'WHITESPACE = _{ " " | "\\t" }\nr = { "x" ~ "y" }\ns = { (" " | "\\t") ~ "z" }\nt = _{ "a" }\nu = @{ "x" ~ WHITESPACE ~ "y" }\n',
     "g4": 'r = { f ~ (";" ~ f)* }\nf = { (!";" ~ ANY)* }\ns = @{ (!^"ab" ~ ANY)* ~ ^"AB" }\nt = _{ "x" }\nu = { ("a" | !"b" ~ ANY)+ ~ &"b" }\n',
 })
-POOLS = (("g1", "g2"), ("g3", "g4"))
+POOLS = (("g1", "g2"), ("g3", "g4"), ("g3", "g5"))
 PROBES = {
     "g1": [("r", "1fx\n"), ("r", "zx"), ("r", "1f"), ("s", "abZ!"), ("s", "ab1"), ("s", ""), ("u", "b"), ("u", "x"), ("u", "c")],
     "g2": [("r", "aF0\n"), ("r", "aG"), ("r", "1"), ("s", "qQ7"), ("s", "qq"), ("s", "q"), ("u", "xd"), ("u", "xc"), ("u", "")],
     "g3": [("r", "  bb"), ("r", " a"), ("r", " b"), ("s", "s ab b"), ("s", "s a"), ("s", ""), ("u", " x b"), ("u", "xab"), ("r", "a b")],
+    "g5": [("r", "x  y"), ("s", "z"), ("s", "  z"), ("s", " z"), ("u", "xy"), ("u", "x y"), ("u", "x  y"), ("r", "x\ty"), ("r", "xy")],
     "g4": [("r", "a;b"), ("r", "a;b"), ("r", ";;"), ("s", "xaBAb"), ("s", "xa"), ("s", "Ab"), ("u", "c"), ("u", "aab"), ("f", "a;b")],
 }
 KINDS = ("U", "O", "C")
@@ -100,11 +104,10 @@ def enabled(history, pool=POOLS[0]):
 
 
 def pool_of(history):
-    for op in history:
-        g = op[2] if op[0] == "mk" else op[1]
-        for pool in POOLS:
-            if g in pool:
-                return pool
+    used = {(op[2] if op[0] == "mk" else op[1]) for op in history}
+    for pool in POOLS:
+        if used <= set(pool):
+            return pool
     return POOLS[0]
 
 
@@ -335,6 +338,7 @@ def run(tier: str) -> int:
         raise common.HarnessError("isolated reference observations are not reproducible")
     # all histories up to the depth bound
     histories = [()]
+    seen_h = {()}
     for pool in POOLS:
         frontier = [()]
         for _ in range(b["depth"]):
@@ -342,7 +346,8 @@ def run(tier: str) -> int:
             for h in frontier:
                 for op in enabled(h, pool):
                     nxt.append(h + (op,))
-            histories.extend(nxt)
+            histories.extend(x for x in nxt if x not in seen_h)
+            seen_h.update(nxt)
             frontier = nxt
     chunks = [histories[i::common.workers() * 4] for i in range(common.workers() * 4)]
     results = common.parallel_map(_history_worker, [(c, ref) for c in chunks if c], fresh=True, order_seed=common.seed())
@@ -420,7 +425,7 @@ def run(tier: str) -> int:
         "traces_validated_against_impl": len(histories) + executions,
         "evaluations": len(histories) + executions,
         "distinct_nontrivial": len(histories) + executions,
-        "rule": "(a) every history over 14 operations - create an unoptimised / default-optimised / custom-pass parser for g1 or g2 (second pool, explored separately: g3 with implicit WHITESPACE, a rule called SKIP, skip idioms and a tagged reference, and g4 with skip idioms evaluated twice per parse and a case-insensitive stop), generate+import a module from the latest parser of a grammar, a succeeding parse, a failing parse, and a parse whose furthest failure comes from a negative predicate - up to the depth bound, "
+        "rule": "(a) every history over 14 operations - create an unoptimised / default-optimised / custom-pass parser for g1 or g2 (further pools, explored separately: g5 with a choice-bodied WHITESPACE next to an ordinary choice with the same alternatives; g3 with implicit WHITESPACE, a rule called SKIP, skip idioms and a tagged reference, and g4 with skip idioms evaluated twice per parse and a case-insensitive stop), generate+import a module from the latest parser of a grammar, a succeeding parse, a failing parse, and a parse whose furthest failure comes from a negative predicate - up to the depth bound, "
                 "each replayed from scratch in a forked pristine process; then every object created in the history, and fresh parsers/modules of every kind created after it, are probed with 9 calls per grammar (succeeding and failing, incl. predicate failures) and each probe "
                 "(tree, or furthest_pos + expected/unexpected sets) must equal the one obtained in a process whose only history is the creation of that one parser. g1 and g2 use the same built-ins (ASCII_HEX_DIGIT, ASCII_ALPHA, NEWLINE, a Unicode property), the same rule names with different bodies and squashable choices. "
                 "states = distinct (global-state fingerprint, verdict) pairs - counted, never used to prune. "
